@@ -245,15 +245,15 @@ func NilOf(so Sort) T {
 
 // Query is one SMT problem: decls+hyps, negated goal (or, for covers, just satisfiability).
 type Query struct {
-	Name   string // obligation name
-	Sub    string // path / conjunct qualifier
-	Text   string // complete SMT-LIB text
-	Cover  bool   // expected sat
-	Goal   string // human readable goal
-	Pos    string // source position
-	Func   string
-	Props  []string
-	Clause string // contract clause text (for hashing / reporting)
+	Name      string // obligation name
+	Sub       string // path / conjunct qualifier
+	Text      string // complete SMT-LIB text
+	Cover     bool   // expected sat
+	Goal      string // human readable goal
+	Pos       string // source position
+	Func      string
+	Props     []string
+	Clause    string // contract clause text (for hashing / reporting)
 	FalseGoal bool
 }
 
